@@ -332,3 +332,136 @@ def is_psd(Q):
                     A[r][c] -= f * A[i][c]
         idx.pop(0)
     return True
+
+
+# --------------------------------------------------------------------------------------
+# change of basis between nested spline spaces (independent of the library: collocation + exact solve)
+# --------------------------------------------------------------------------------------
+def sample_params(U, p, per_span):
+    out = []
+    for k in span_indices(U, p):
+        a, b = U[k], U[k + 1]
+        for s in range(per_span):
+            out.append(a + (b - a) * Fraction(2 * s + 1, 2 * per_span))
+    return out
+
+
+def collocation(U, p, params, W=None):
+    return [basis(U, p, p, u, W) for u in params]
+
+
+def refine_matrix(Uc, p, Uf, q):
+    """T with (fine control points) = T @ (coarse control points), for a coarse polynomial spline space (Uc, p)
+    contained in the fine one (Uf, q): least squares on q+1 samples per fine span, exact because of containment."""
+    cuts = sorted(set(Uc) | set(Uf))
+    params = []
+    for a, b in zip(cuts[:-1], cuts[1:]):     # on each piece both curves are polynomials of degree <= q:
+        for s_ in range(q + 1):              # agreement at q+1 points of every piece is agreement everywhere
+            params.append(a + (b - a) * Fraction(2 * s_ + 1, 2 * (q + 1)))
+    if q < p:
+        raise ValueError("fine degree below coarse degree")
+    Bf = collocation(Uf, q, params)
+    Bc = collocation(Uc, p, params)
+    nf, nc = len(Uf) - q - 1, len(Uc) - p - 1
+    AtA = [[sum(Bf[r][i] * Bf[r][j] for r in range(len(params))) for j in range(nf)] for i in range(nf)]
+    AtB = [[sum(Bf[r][i] * Bc[r][j] for r in range(len(params))) for j in range(nc)] for i in range(nf)]
+    T = mat_solve(AtA, AtB)
+    # containment check: residual must vanish
+    for r in range(len(params)):
+        for j in range(nc):
+            if sum(Bf[r][i] * T[i][j] for i in range(nf)) != Bc[r][j]:
+                raise ValueError("coarse space is not contained in the fine space")
+    return T
+
+
+def matmul(A, B):
+    return [[sum(A[i][k] * B[k][j] for k in range(len(B))) for j in range(len(B[0]))] for i in range(len(A))]
+
+
+def transpose(A):
+    return [list(r) for r in zip(*A)]
+
+
+def elevate_vector(U, p, t):
+    """Each distinct knot's multiplicity raised by t."""
+    out = []
+    for x in knots_of(U):
+        out += [x] * (mult_of(U, x) + t)
+    return out
+
+
+def residual_form(Uc, pc, Uf, pf, T):
+    """Matrix R with P^T R P = integral (C - D)^2 where C = sum P_i N_i on (Uc,pc), D = sum (TP)_j M_j on (Uf,pf)."""
+    A = gram(Uc, pc, Uc, pc)
+    B = gram(Uf, pf, Uc, pc)      # new x old
+    C = gram(Uf, pf, Uf, pf)
+    Tt = transpose(T)
+    TtB = matmul(Tt, B)
+    TtCT = matmul(matmul(Tt, C), T)
+    n = len(A)
+    return [[A[i][j] - TtB[i][j] - TtB[j][i] + TtCT[i][j] for j in range(n)] for i in range(n)]
+
+
+def negative_direction(D):
+    """A rational vector v with v^T D v < 0 for a symmetric rational matrix that is not PSD (None if PSD)."""
+    import numpy as np
+    n = len(D)
+    if is_psd(D):
+        return None
+    A = np.array([[float(D[i][j] + D[j][i]) / 2 for j in range(n)] for i in range(n)])
+    w, V = np.linalg.eigh(A)
+    cands = [V[:, 0]] + [np.eye(n)[i] for i in range(n)]
+    for i in range(n):
+        for j in range(i + 1, n):
+            for s in (1, -1):
+                e = np.zeros(n)
+                e[i], e[j] = 1, s
+                cands.append(e)
+    for c in cands:
+        scale = max(abs(c)) or 1
+        v = [Fraction(int(round(x / scale * 1000)), 1000) for x in c]
+        q = sum(v[i] * D[i][j] * v[j] for i in range(n) for j in range(n))
+        if q < 0:
+            return v
+    return None
+
+
+def isqrt_floor_fraction(x, digits=12):
+    """A rational r > 0 with r*r <= x (x > 0), accurate to `digits` decimal digits."""
+    from math import isqrt
+    x = Fraction(x)
+    s = 10 ** digits
+    r = Fraction(isqrt((x.numerator * s * s) // x.denominator), s)
+    while r * r > x:
+        r -= Fraction(1, s)
+    return r
+
+
+def null_space(A, ncols=None):
+    """Basis (list of vectors) of {v : A v = 0} over Q."""
+    rows = [[Fraction(x) for x in r] for r in A]
+    n = ncols if ncols is not None else (len(rows[0]) if rows else 0)
+    piv = []
+    r = 0
+    for c in range(n):
+        pr = next((i for i in range(r, len(rows)) if rows[i][c] != 0), None)
+        if pr is None:
+            continue
+        rows[r], rows[pr] = rows[pr], rows[r]
+        pv = rows[r][c]
+        rows[r] = [x / pv for x in rows[r]]
+        for i in range(len(rows)):
+            if i != r and rows[i][c] != 0:
+                f = rows[i][c]
+                rows[i] = [x - f * y for x, y in zip(rows[i], rows[r])]
+        piv.append(c)
+        r += 1
+    free = [c for c in range(n) if c not in piv]
+    basis_ = []
+    for f in free:
+        v = [Fraction(0)] * n
+        v[f] = Fraction(1)
+        for i, c in enumerate(piv):
+            v[c] = -rows[i][f]
+        basis_.append(v)
+    return basis_
